@@ -186,6 +186,60 @@ pub fn run(cfg: &Cfg) -> Stats {
                 }
             }
         }
+        // every value 0..=255 in every position of the extended-colour forms, alone and followed by another code
+        for t in [38u32, 48, 58] {
+            for v in 0..=255u32 {
+                if !mine() {
+                    continue;
+                }
+                let (a, b) = ((v * 7 + 13) % 256, (v * 31 + 101) % 256);
+                for s in [
+                    format!("{t};5;{v}"),
+                    format!("{t};5;{v};1"),
+                    format!("4;{t};2;{v};{a};{b}"),
+                    format!("{t};2;{a};{v};{b};7"),
+                    format!("{t};2;{b};{a};{v}"),
+                    format!("{t};2;{b};{a};{v};{t};5;{a}"),
+                ] {
+                    eval(&s, &mut st, true);
+                }
+            }
+        }
+        // values that only fit 0..=255 after wrapping at 2^8 / 2^16 / 2^32 / 2^64: an out-of-range code, so no style
+        for base in [1u128 << 8, 1 << 16, 1 << 31, 1 << 32, 1 << 63, 1 << 64] {
+            for kk in 0..=255u128 {
+                if !mine() {
+                    continue;
+                }
+                let v = base + kk;
+                for s in [format!("{v}"), format!("1;{v}"), format!("38;5;{v}"), format!("48;2;1;{v};3")] {
+                    eval(&s, &mut st, true);
+                }
+            }
+        }
+        // lists of every length up to 400 codes (list-length thresholds), ending in a plain code or an extended form
+        for len in 1..=400usize {
+            if !mine() {
+                continue;
+            }
+            for (fill, tail) in [("1", "31;4"), ("0", "38;2;1;2;3"), ("22", "48;5;208;9")] {
+                let mut s = String::new();
+                for _ in 0..len {
+                    s.push_str(fill);
+                    s.push(';');
+                }
+                s.push_str(tail);
+                eval(&s, &mut st, true);
+            }
+        }
+        // the same call repeated after a rejected input (results must not depend on earlier calls)
+        if mine() {
+            for (good, bad) in [("01;31", "01;3x"), ("38;5;208", "38;5;2080"), ("4", "")] {
+                for s in [good, bad, bad, good, bad, good, good] {
+                    eval(s, &mut st, true);
+                }
+            }
+        }
         if three_full {
             for a in 0..=110u32 {
                 for b in 0..=110u32 {
@@ -219,14 +273,21 @@ pub fn run(cfg: &Cfg) -> Stats {
                 if j > 0 {
                     s.push(';');
                 }
-                let u = if rng.chance(1, 4) { us[rng.below(us.len() as u64) as usize].clone() } else { rng.pick(&SUBSET40).to_string() };
+                let u = match rng.below(8) {
+                    0 | 1 => us[rng.below(us.len() as u64) as usize].clone(),
+                    2 => format!("{};5;{}", rng.pick(&[38u32, 48, 58]), rng.below(256)),
+                    3 => format!("{};2;{};{};{}", rng.pick(&[38u32, 48, 58]), rng.below(256), rng.below(256), rng.below(256)),
+                    4 => rng.below(256).to_string(),
+                    _ => rng.pick(&SUBSET40).to_string(),
+                };
                 for (fi, f) in u.split(';').enumerate() {
                     if fi > 0 {
                         s.push(';');
                     }
-                    match rng.below(6) {
-                        0 => s.push('0'),
-                        1 => s.push_str("000"),
+                    match rng.below(12) {
+                        0 | 1 => s.push('0'),
+                        2 | 3 => s.push_str("000"),
+                        4 => s.push_str(&"0".repeat(rng.range(4, 30) as usize)),
                         _ => {}
                     }
                     s.push_str(f);
